@@ -17,7 +17,7 @@ FORMS = {
     'plain': 'v-model={{%s}}', 'camel': 'vModel={{%s}}', 'sfx': 'v-model_m1={{%s}}', 'sfx2': 'v-model_m1_m2={{%s}}', 'ns': 'v-model:ar={{%s}}', 'nsm': 'v-model:ar_m1={{%s}}',
     'a1': 'v-model={{[%s]}}', 'as': 'v-model={{[%s, "ar"]}}', 'ac': 'v-model={{[%s, v3]}}', 'acc': 'v-model={{[%s, f1()]}}', 'am': 'v-model={{[%s, ["m1", "m2"]]}}',
     'asm': 'v-model={{[%s, "ar", ["m1"]]}}', 'acm': 'v-model={{[%s, v3, ["m1"]]}}', 'am0': 'v-model={{[%s, []]}}', 'nsa': 'v-model:ar={{[%s, ["m2"]]}}',
-    'sfxa': 'v-model_m1={{[%s]}}',
+    'sfxa': 'v-model_m1={{[%s]}}', 'nsa1': 'v-model:ar={{[%s]}}', 'nsm1': 'v-model:ar_m1={{[%s]}}',
 }
 HOSTS = {
     'input': 'input', 'cb': 'input type="checkbox"', 'radio': 'input type="radio"', 'text': 'input type="text"', 'dyn': 'input type={{v4}}',
@@ -337,7 +337,7 @@ def oracle(env):
 # ------------------------------------------------------------------ jobs
 def jobs(tier):
     out = []
-    forms_q = ['plain', 'camel', 'sfx', 'ns', 'nsm', 'a1', 'as', 'ac', 'am', 'asm', 'acm']
+    forms_q = ['plain', 'camel', 'sfx', 'ns', 'nsm', 'nsa1', 'nsm1', 'a1', 'as', 'ac', 'am', 'asm', 'acm']
     forms = forms_q if tier == 'quick' else list(FORMS)
     for h in HOSTS:
         for f in forms:
